@@ -70,6 +70,23 @@ def check_variant(res, bt, x, log):
 def run_shard(shard, tier, seed):
     res = H.Result(ID)
     rng = C.rng_for(seed, ID, shard['shard'])
+    # contents as long as the values at which a length field grows by an octet (C03's family, below 2**24)
+    from . import c03
+    for j, (T, v) in enumerate(c03.length_boundary_cases('quick')):
+        if j % C.NSHARDS != shard['shard']:
+            continue
+        try:
+            bt = C.try_build(res, T, v)
+            if bt is None:
+                continue
+            for _ in range(2):
+                x, ch = R.ber_variant(T, v, rng)
+                check_variant(res, bt, x, ch.log)
+            res.see('length-boundary-cases')
+        except Exception:
+            res.see('harness:error')
+            if len(res.inconclusive) < 3:
+                res.inconclusive.append('harness error: ' + H.fmt_exc())
     for i in range(shard['n']):
         T, v = C.gen_case(rng, tier, any_maker=R.ber_any_maker, big_strings=rng.random() < 0.05)
         try:
